@@ -617,6 +617,8 @@ struct CompressedBlob {
     compression_ratio: f32,
     /// Entropy encoding algorithm used (if any)
     entropy_algorithm: EntropyAlgorithm,
+    /// Length of the PA-Zip stream that was entropy encoded (the entropy decoder's output length)
+    entropy_input_size: usize,
 }
 
 /// Main DictZipBlobStore implementation
@@ -1119,25 +1121,33 @@ impl DictZipBlobStore {
 
     /// Decode Huffman O1 encoded data with configured interleaving
     fn decode_huffman_o1(&self, data: &[u8], original_size: usize) -> Result<Vec<u8>> {
-        // Get or build decoder (lazy initialization)
-        if self.huffman_decoder.borrow().is_none() {
-            // Build decoder from encoder - first build encoder
+        // Get or build the encoder tables (lazy initialization, same tables as the encode side)
+        if self.huffman_encoder.borrow().is_none() {
             let dict = self.dictionary.read()
                 .map_err(|_| ZiporaError::resource_busy("Dictionary read lock"))?;
 
             let training_data = dict.data();
-            let encoder = ContextualHuffmanEncoder::new(training_data, crate::entropy::huffman::HuffmanOrder::Order1)?;
-            let new_decoder = ContextualHuffmanDecoder::new(encoder);
-            *self.huffman_decoder.borrow_mut() = Some(new_decoder);
+            let new_encoder = ContextualHuffmanEncoder::new(training_data, crate::entropy::huffman::HuffmanOrder::Order1)?;
+            *self.huffman_encoder.borrow_mut() = Some(new_encoder);
         }
 
-        // Get decoder clone for use
-        let binding = self.huffman_decoder.borrow();
-        let decoder = binding.as_ref().unwrap().clone();
+        let binding = self.huffman_encoder.borrow();
+        let encoder = binding.as_ref().unwrap();
 
-        // The decoder's decode method already handles the encoding format
-        // The interleaving is determined by how the data was encoded
-        decoder.decode(data, original_size)
+        // encode_x1/x2/x4/x8 produce the interleaved stream format, which is inverted by
+        // decode_with_interleaving with the same factor (not by the plain Order-1 decoder).
+        let factor = match self.config.entropy_interleaved {
+            0 | 1 => crate::entropy::huffman::InterleavingFactor::X1,
+            2 => crate::entropy::huffman::InterleavingFactor::X2,
+            4 => crate::entropy::huffman::InterleavingFactor::X4,
+            8 => crate::entropy::huffman::InterleavingFactor::X8,
+            other => {
+                return Err(ZiporaError::Configuration {
+                    message: format!("Invalid interleaving factor: {}", other),
+                })
+            }
+        };
+        encoder.decode_with_interleaving(data, original_size, factor)
     }
 
     /// Decode FSE encoded data
@@ -1169,7 +1179,7 @@ impl BlobStore for DictZipBlobStore {
         // Step 1: Decode entropy encoding (if any)
         let dict_compressed = self.decode_entropy(
             &blob.compressed_data,
-            blob.original_size,
+            blob.entropy_input_size,
             blob.entropy_algorithm
         )?;
 
@@ -1211,6 +1221,7 @@ impl BlobStore for DictZipBlobStore {
             let mut compressor_copy = (*self.compressor).clone();
             let _compression_stats = compressor_copy.compress(data, &mut dict_compressed)
                 .map_err(|e| ZiporaError::invalid_data(&format!("Compression failed: {}", e)))?;
+            let dict_len = dict_compressed.len();
 
             // Step 2: Apply entropy encoding (if configured)
             let (final_compressed, entropy_algorithm) = if self.config.entropy_algorithm != EntropyAlgorithm::None {
@@ -1241,6 +1252,7 @@ impl BlobStore for DictZipBlobStore {
                     is_compressed: true,
                     compression_ratio,
                     entropy_algorithm,
+                    entropy_input_size: dict_len,
                 }
             } else {
                 // Store uncompressed if compression doesn't help
@@ -1250,6 +1262,7 @@ impl BlobStore for DictZipBlobStore {
                     is_compressed: false,
                     compression_ratio: 1.0,
                     entropy_algorithm: EntropyAlgorithm::None,
+                    entropy_input_size: 0,
                 }
             }
         } else {
@@ -1260,6 +1273,7 @@ impl BlobStore for DictZipBlobStore {
                 is_compressed: false,
                 compression_ratio: 1.0,
                 entropy_algorithm: EntropyAlgorithm::None,
+                entropy_input_size: 0,
             }
         };
 
